@@ -670,7 +670,8 @@ def balance(recs, bins=8):
     order = sorted(range(len(recs)), key=lambda j: -float(recs[j]['_cost']))
     out = []
     for b in range(bins):
-        out.extend(recs[j] for j in order[b::bins])
+        # cheapest first inside a batch: the pipeline's binding demonstration mutates the first records of every operation
+        out.extend(recs[j] for j in reversed(order[b::bins]))
     for r in out:
         r.pop('_cost', None)
     return out
